@@ -337,6 +337,31 @@ Proof.
   rewrite IH. apply insert_by_map. exact H.
 Qed.
 
+(* Universe's insertion sort is Determinism's *)
+Lemma insert_pos_is_insert_by : forall pos x l, U.insert_pos pos x l = Det.insert_by pos N.leb x l.
+Proof. intros pos x l. induction l as [|y r IH]; cbn; [reflexivity|]. rewrite IH. reflexivity. Qed.
+
+Lemma sort_pos_is_sort_by : forall pos l, U.sort_pos pos l = Det.sort_by pos N.leb l.
+Proof.
+  intros pos l. unfold U.sort_pos, Det.sort_by. induction l as [|x r IH]; cbn [fold_right]; [reflexivity|].
+  rewrite IH. apply insert_pos_is_insert_by.
+Qed.
+
+Lemma mtbl_get_sorted : forall pos key m,
+  U.mtbl_get key (map (fun kv => (fst kv, U.sort_pos pos (snd kv))) m) = U.sort_pos pos (U.mtbl_get key m).
+Proof.
+  intros pos key m. induction m as [|[k v] r IH]; cbn [map U.mtbl_get fst snd]; [reflexivity|].
+  destruct (N.eqb key k); [reflexivity|exact IH].
+Qed.
+
+(* MethodsOf(n, true) on the ordered tables = the ordered list *)
+Lemma sorted_methods_true : forall pos t n,
+  sorted_methods_of pos t n true = Det.sort_by pos N.leb (U.methods_of U.all_fixed t n true).
+Proof.
+  intros pos t n. unfold sorted_methods_of, U.methods_of, U.sort_methods. cbn [U.t_methods].
+  rewrite mtbl_get_sorted. apply sort_pos_is_sort_by.
+Qed.
+
 Theorem methods_sorted_agree : forall (o : Det.oracle) p ptr os n,
   Det.shuffles o ->
   NoDup (map Det.m_pos (Det.pk_meths p)) ->
@@ -344,7 +369,7 @@ Theorem methods_sorted_agree : forall (o : Det.oracle) p ptr os n,
   map U.o_name (sorted_methods_of U.o_id (U.fill_tables U.all_fixed os) n true)
   = Det.methods_of true o p (U.n_origin n).
 Proof.
-  intros o p ptr os n Hs Hnd HP. unfold sorted_methods_of, Det.methods_of.
+  intros o p ptr os n Hs Hnd HP. rewrite sorted_methods_true. unfold Det.methods_of.
   set (f := fun m => N.eqb (Det.m_recv m) (U.n_origin n)).
   set (F' := filter f (o Det.meth [bs "meths"; Det.pk_path p] (Det.pk_meths p))).
   pose proof (universe_methods_perm p ptr os n HP) as H1. fold f in H1.
@@ -365,20 +390,17 @@ Theorem sorted_methods_order_independent : forall (pos : U.obj -> N) defs p1 p2 
   NoDup (map pos (meths_of defs)) ->
   sorted_methods_of pos (U.fill_tables U.all_fixed p1) n ptr = sorted_methods_of pos (U.fill_tables U.all_fixed p2) n ptr.
 Proof.
-  intros pos defs p1 p2 n ptr H1 H2 Hnd. unfold sorted_methods_of.
-  destruct (UP.methods_exact defs p1 n H1) as [A1 B1]. destruct (UP.methods_exact defs p2 n H2) as [A2 B2].
-  assert (Hsub : forall (g : U.obj -> bool), (forall x, g x = true -> is_meth x = true) ->
-                 NoDup (map pos (filter g defs))).
-  { intros g Hg. rewrite (filter_implies g is_meth defs Hg). apply TP.NoDup_map_filter. exact Hnd. }
-  destruct ptr.
-  - apply TP.sort_by_N_perm_eq.
-    + eapply Permutation_NoDup; [apply Permutation_map, Permutation_sym; exact A1|].
-      apply Hsub. apply declared_on_meth.
-    + eapply perm_trans; [exact A1|apply Permutation_sym; exact A2].
-  - apply TP.sort_by_N_perm_eq.
-    + eapply Permutation_NoDup; [apply Permutation_map, Permutation_sym; exact B1|].
-      apply Hsub. intros x Hx. apply andb_true_iff in Hx. eapply declared_on_meth. exact (proj1 Hx).
-    + eapply perm_trans; [exact B1|apply Permutation_sym; exact B2].
+  intros pos defs p1 p2 n ptr H1 H2 Hnd.
+  destruct (UP.methods_exact defs p1 n H1) as [A1 _]. destruct (UP.methods_exact defs p2 n H2) as [A2 _].
+  assert (E : Det.sort_by pos N.leb (U.methods_of U.all_fixed (U.fill_tables U.all_fixed p1) n true)
+              = Det.sort_by pos N.leb (U.methods_of U.all_fixed (U.fill_tables U.all_fixed p2) n true)).
+  { apply TP.sort_by_N_perm_eq.
+    - eapply Permutation_NoDup; [apply Permutation_map, Permutation_sym; exact A1|].
+      rewrite (filter_implies (UP.declared_on (U.n_origin n)) is_meth defs (declared_on_meth _)).
+      apply TP.NoDup_map_filter. exact Hnd.
+    - eapply perm_trans; [exact A1|apply Permutation_sym; exact A2]. }
+  unfold sorted_methods_of, U.methods_of, U.sort_methods in *. cbn [U.t_methods] in *.
+  rewrite !mtbl_get_sorted, !sort_pos_is_sort_by. rewrite E. reflexivity.
 Qed.
 
 Theorem sorted_methods_spec : forall (pos : U.obj -> N) defs pi n,
@@ -386,7 +408,7 @@ Theorem sorted_methods_spec : forall (pos : U.obj -> N) defs pi n,
   Permutation (sorted_methods_of pos (U.fill_tables U.all_fixed pi) n true) (filter (UP.declared_on (U.n_origin n)) defs)
   /\ StronglySorted (fun a b => N.leb (pos a) (pos b) = true) (sorted_methods_of pos (U.fill_tables U.all_fixed pi) n true).
 Proof.
-  intros pos defs pi n HP. unfold sorted_methods_of. split.
+  intros pos defs pi n HP. rewrite sorted_methods_true. split.
   - eapply perm_trans; [apply Permutation_sym, TP.sort_by_perm|]. apply (UP.methods_exact defs pi n HP).
   - apply TP.sort_by_sorted.
     + intros a b. destruct (N.leb_spec a b); [left; reflexivity|right; apply N.leb_le; lia].
